@@ -13,7 +13,9 @@ flags:  std=8      only valid from Fortran 2008
         mod=False  not allowed in a module specification part
         solo=True  the statement triggers a known finding of fparser1: it is used alone (variant sweep), never in simulated programs,
                    so that two known findings cannot meet in one program
+        reorders=True  fparser prints the parts of the statement in another order (an observation): left out of the token law of C02
 """
+import os
 
 
 def V(text, **kw):
@@ -595,8 +597,16 @@ def gen_tla(path):
         A("SplitUnit_%s == %s" % (k, tla_set(_spl(UNIT[k]))))
     A("TypeProcOnlyModule == " + tla_set(ids(OPEN["type"], lambda v: not v["proc"])))
     A("=============================================================================")
-    with open(path, "w") as f:
-        f.write("\n".join(L) + "\n")
+    text = "\n".join(L) + "\n"
+    try:
+        if open(path).read() == text:
+            return              # unchanged: leave the file alone (checks may run at the same time)
+    except OSError:
+        pass
+    tmp = "%s.%d.tmp" % (path, os.getpid())
+    with open(tmp, "w") as f:
+        f.write(text)
+    os.replace(tmp, path)
 
 
 if __name__ == "__main__":
